@@ -18,6 +18,7 @@ import (
 	"os"
 	"path/filepath"
 	"strings"
+	"syscall"
 	"time"
 
 	"github.com/ipfs/go-cid"
@@ -154,7 +155,7 @@ var c18OddNames = []string{
 }
 
 func c18Profiles() []string {
-	return []string{"small files", "chunk boundaries", "deep nesting", "many siblings", "odd names", "symbolic links", "empty directories", "duplicate contents", "mixed", "sharded directory", "multi-level file", "long names", "almost-sharded directory", "zero-filled files"}
+	return []string{"small files", "chunk boundaries", "deep nesting", "many siblings", "odd names", "symbolic links", "empty directories", "duplicate contents", "mixed", "sharded directory", "multi-level file", "long names", "almost-sharded directory", "zero-filled files", "names differing only in case"}
 }
 
 // c18Tree draws the source tree of a profile; the root's name is the source's base name.
@@ -191,6 +192,9 @@ func c18Tree(profile string, seed int64, thorough bool) *tNode {
 		depth := 15 + r.Intn(25)
 		if thorough {
 			depth = 40 + r.Intn(120)
+		}
+		if r.Intn(4) == 0 {
+			depth = 129 + r.Intn(60) // deeper than any round number a tool might pick as "deep enough" (PATH_MAX is far away)
 		}
 		cur := root
 		for i := 0; i < depth; i++ {
@@ -236,6 +240,16 @@ func c18Tree(profile string, seed int64, thorough bool) *tNode {
 				root.add(tFile(nm, small(), r.Int63()))
 			}
 		}
+	case "names differing only in case":
+		// siblings whose names are equal after case folding (distinct entries on this filesystem and in UnixFS)
+		for _, pr := range [][2]string{{"Makefile", "makefile"}, {"README", "readme"}, {"Émile.txt", "émile.txt"}, {"a.TXT", "a.txt"}} {
+			root.add(tFile(pr[0], small(), r.Int63()))
+			root.add(tFile(pr[1], small(), r.Int63()))
+		}
+		root.add(tDir("Docs", tFile("Index.md", 12, r.Int63()), tFile("index.md", 13, r.Int63())))
+		root.add(tDir("docs", tFile("x", 3, r.Int63())))
+		root.add(tLink("Link", "Makefile"))
+		root.add(tLink("link", "makefile"))
 	case "long names":
 		// names up to NAME_MAX (255 bytes): whatever the tool appends to a name while extracting must still fit
 		for _, n := range []int{200, 247, 248, 250, 255} {
@@ -591,7 +605,7 @@ func runC18(t *mon.T, raw json.RawMessage) {
 
 	// ---- car extract, twice
 	allEqual := true
-	for i, mode := range []string{"-f", "stdin (pipe)", "stdin (file)", "-f (output directory below a symlinked directory)", "-f (older, longer files already in place)", "-f . (into the current directory)"} {
+	for i, mode := range []string{"-f", "stdin (pipe)", "stdin (socket)", "stdin (file)", "-f (output directory below a symlinked directory)", "-f (older, longer files already in place)", "-f . (into the current directory)"} {
 		out := filepath.Join(T, fmt.Sprintf("out-%d", i))
 		must(os.Mkdir(out, 0o755))
 		var er carRun
@@ -622,6 +636,16 @@ func runC18(t *mon.T, raw json.RawMessage) {
 			er = runCar(T, nil, 4*time.Minute, "extract", "-f", carPath, out)
 		case "stdin (pipe)": // car create … && cat x.car | car extract out
 			er = runCar(T, carBytes, 4*time.Minute, "extract", out)
+		case "stdin (socket)": // standard input is a socket (socat, ssh, socket activation): it cannot seek either
+			fds, serr := syscall.Socketpair(syscall.AF_UNIX, syscall.SOCK_STREAM, 0)
+			must(serr)
+			wr, rd := os.NewFile(uintptr(fds[0]), "sock-w"), os.NewFile(uintptr(fds[1]), "sock-r")
+			go func() {
+				_, _ = wr.Write(carBytes)
+				wr.Close()
+			}()
+			er = runCarIO(T, rd, 4*time.Minute, "extract", out)
+			rd.Close()
 		case "stdin (file)": // car extract out < x.car
 			f, err := os.Open(carPath)
 			must(err)
@@ -782,7 +806,7 @@ func init() {
 		MinCover: map[string]int{
 			"create:wrap": 40, "create:archive-path-holds-an-empty-file": 20, "create:spelling:trailing-separator": 10, "create:spelling:--no-wrap=false": 10, "create:no-wrap": 40, "create:several": 15, "create:dot": 15, "create:version-1": 60, "create:version-2": 60,
 			"archive:carv1": 60, "archive:carv2": 60, "root-agrees": 150,
-			"extract:-f": 150, "extract:-f . (into the current directory)": 150, "extract:-f (older, longer files already in place)": 150, "extract:-f (output directory below a symlinked directory)": 150, "extract:stdin (pipe)": 150, "extract:stdin (file)": 150,
+			"extract:-f": 150, "extract:-f . (into the current directory)": 150, "extract:-f (older, longer files already in place)": 150, "extract:-f (output directory below a symlinked directory)": 150, "extract:stdin (pipe)": 150, "extract:stdin (socket)": 150, "extract:stdin (file)": 150,
 			"tree-reproduced:-f": 100, "tree-reproduced:stdin (pipe)": 50, "tree-reproduced:stdin (file)": 100,
 			"trees-with:empty-files": 10, "trees-with:multi-chunk-files": 10, "trees-with:empty-dirs": 10, "trees-with:sharded-dirs": 4,
 			"trees-with:symlink": 20, "trees-with:non-ascii-names": 10, "trees-with:depth>=15": 10, "trees-with:>=100-entries": 10,
